@@ -9,14 +9,16 @@ import PyElf.Proofs.Primitives
 import PyElf.Proofs.Engine
 import PyElf.Proofs.DieForms
 import PyElf.Proofs.DieAbbrev
+import PyElf.Proofs.DieBundle
 namespace PyElf.Proofs.C04
 open PyElf PyElf.Spec PyElf.Spec.C04 PyElf.Model PyElf.Model.C04 PyElf.Proofs PyElf.Proofs.Engine
 
 /-- what `_parse_DIE` needs of the unit it runs in: the struct bundle is the standard's for the
-    unit's configuration, `DW_FORM_raw2name` and the presentation of form numbers name the
+    unit's configuration — on the fields the DIE code reads (`BundleEq`; `BundleEq.of_eq` for a bundle that IS
+    the standard's) —, `DW_FORM_raw2name` and the presentation of form numbers name the
     standard's forms as the standard does -/
 structure UnitOK (U : UnitCtx) (c : DwarfCfg) (nm : Names) : Prop where
-  structs : U.S = Spec.dwarfStructs c
+  structs : BundleEq U.S (Spec.dwarfStructs c)
   raw2name : ∀ k ∈ formCodes, U.raw2name k = formName k
   formNames : ∀ k ∈ formCodes, nm.form k = .str ((formName k).getD "")
 
@@ -25,15 +27,15 @@ structure UnitOK (U : UnitCtx) (c : DwarfCfg) (nm : Names) : Prop where
 theorem formFacts : formCodes.all (fun k => (formName k).isSome
     && (((formName k).getD "" == "DW_FORM_implicit_const") == (k == 0x21))
     && (((formName k).getD "" == "DW_FORM_indirect") == (k == 0x16))
-    && ((formName k).getD "" != "DW_FORM_ref")) = true := by decide
+    && (((formName k).getD "" == "DW_FORM_ref") == (k == 0x02))) = true := by decide
 
 theorem formFacts' {k : Nat} (hk : k ∈ formCodes) :
     formName k = some ((formName k).getD "") ∧ ((formName k).getD "" = "DW_FORM_implicit_const" ↔ k = 0x21)
-      ∧ ((formName k).getD "" = "DW_FORM_indirect" ↔ k = 0x16) ∧ (formName k).getD "" ≠ "DW_FORM_ref" := by
+      ∧ ((formName k).getD "" = "DW_FORM_indirect" ↔ k = 0x16) ∧ ((formName k).getD "" = "DW_FORM_ref" ↔ k = 0x02) := by
   have h := List.all_eq_true.1 formFacts k hk
-  simp only [Bool.and_eq_true, beq_iff_eq, bne_iff_ne, ne_eq] at h
+  simp only [Bool.and_eq_true, beq_iff_eq] at h
   obtain ⟨⟨⟨h1, h2⟩, h3⟩, h4⟩ := h
-  refine ⟨?_, ?_, ?_, h4⟩
+  refine ⟨?_, ?_, ?_, ?_⟩
   · cases hn : formName k with
     | none => rw [hn] at h1; cases h1
     | some s => rfl
@@ -47,10 +49,21 @@ theorem formFacts' {k : Nat} (hk : k ∈ formCodes) :
       rw [this] at h3; simpa using h3.symm
     · intro e; have : (k == 0x16) = true := by simpa using e
       rw [this] at h3; simpa using h3
+  · constructor
+    · intro e; have : ((formName k).getD "" == "DW_FORM_ref") = true := by simpa using e
+      rw [this] at h4; simpa using h4.symm
+    · intro e; have : (k == 0x02) = true := by simpa using e
+      rw [this] at h4; simpa using h4
+
+theorem mem_std_of_ne {k : Nat} (hk : k ∈ formCodes) (h : k ≠ 0x02) : k ∈ stdFormCodes := by
+  simp only [formCodes, List.mem_cons] at hk
+  rcases hk with hk | hk
+  · exact absurd hk h
+  · exact hk
 
 theorem formClass_some_mem {c : DwarfCfg} {k : Nat} {cl : Cls} (h : formClass c k = some cl) : k ∈ formCodes := by
   unfold formClass at h
-  split at h <;> first | (cases h; done) | (simp [formCodes])
+  split at h <;> first | (cases h; done) | (simp [formCodes, stdFormCodes])
 
 theorem mem_indirect : FORM_indirect ∈ formCodes := by decide
 theorem mem_implicit : FORM_implicit_const ∈ formCodes := by decide
@@ -73,10 +86,20 @@ theorem read_form {U : UnitCtx} {c : DwarfCfg} {nm : Names} (hU : UnitOK U c nm)
       = .ok (rawVal op, pos + (encOperand c.le cl op).length) := by
   have hk := formClass_some_mem hcl
   obtain ⟨_, _, _, hnr⟩ := formFacts' hk
-  have hl := form_lookup c k hk
-  rw [hcl] at hl
-  simp only [formParser, hnr, if_false, hU.structs, hl, Option.map, bind, Except.bind]
-  exact parseWith_cls cl op hwf hd
+  by_cases h2 : k = 0x02
+  · -- the legacy DW_FORM_ref: `Dwarf_dw_form['DW_FORM_ref'] = the_Dwarf_uint32` (Props/TieC04 `form_ref_entry`)
+    subst h2
+    have hcl' : cl = .fixed 4 := by simpa [formClass] using hcl.symm
+    subst hcl'
+    have hS : (Spec.dwarfStructs c).the_Dwarf_uint32 = clsCon c.le (.fixed 4) := rfl
+    have hn : (formName 0x02).getD "" = "DW_FORM_ref" := rfl
+    simp only [formParser, hn, if_true, hU.structs.uleb, hU.structs.form, hU.structs.u32, hS, bind, Except.bind]
+    exact parseWith_cls (.fixed 4) op hwf hd
+  · have hnr' : ¬ (formName k).getD "" = "DW_FORM_ref" := fun e => h2 (hnr.1 e)
+    have hl := form_lookup c k (mem_std_of_ne hk h2)
+    rw [hcl] at hl
+    simp only [formParser, hnr', if_false, hU.structs.uleb, hU.structs.form, hU.structs.u32, hl, Option.map, bind, Except.bind]
+    exact parseWith_cls cl op hwf hd
 
 /-! ### DW_FORM_indirect -/
 
@@ -154,7 +177,7 @@ theorem indirectLoop_chain {U : UnitCtx} {c : DwarfCfg} {nm : Names} (hU : UnitO
       rw [encUlebN_length] at hd'
       have hrn : U.raw2name FORM_indirect = some "DW_FORM_indirect" := hU.raw2name _ mem_indirect
       have hfp : formParser U.S (.str "DW_FORM_indirect") = .ok .uleb := by
-        simp [formParser, hU.structs, form_indirect_lookup]
+        simp [formParser, hU.structs.uleb, hU.structs.form, hU.structs.u32, form_indirect_lookup]
       have hneg : ¬ ((chainHead form ls : Nat) : Int) < 0 := by omega
       have hch : chainHead form (l :: ls) = FORM_indirect := rfl
       rw [hch, indirectLoop]
@@ -182,7 +205,7 @@ theorem resolveIndirect_chain {U : UnitCtx} {c : DwarfCfg} {nm : Names} (hU : Un
     have hge := encChain_length_ge form ls hch.2
     simp only [List.length_append] at hl
     unfold resolveIndirect
-    simp only [hU.structs, the_uleb_eq, h0, bind, Except.bind]
+    simp only [hU.structs.uleb, hU.structs.form, hU.structs.u32, the_uleb_eq, h0, bind, Except.bind]
     rw [indirectLoop_chain hU hcl hni op hwf ls _ (pos + l) (by omega) hch.2 hd']
     simp [encChain_cons, encUlebN_length, Nat.add_assoc]
 
@@ -395,7 +418,7 @@ theorem parseDIE_encoded {U : UnitCtx} {c : DwarfCfg} {nm : Names} (hU : UnitOK 
       = n.decl.children := by
     cases n.decl.children <;> decide
   unfold parseDIE seekCheck
-  simp only [hns, if_false, bind, Except.bind, hU.structs, the_uleb_eq, h0, hne, hab, hdecl]
+  simp only [hns, if_false, bind, Except.bind, hU.structs.uleb, hU.structs.form, hU.structs.u32, the_uleb_eq, h0, hne, hab, hdecl]
   simp only [declVal, getField_tag, getField_children, getField_attr_spec, hloop, hflag, pure, Except.pure, entryObs,
     encEntry_length]
   congr 2
@@ -408,7 +431,7 @@ theorem parseDIE_null {U : UnitCtx} {c : DwarfCfg} {nm : Names} (hU : UnitOK U c
   have h0 := parseNat_ulebN (env := U.env) hd (by rw [ulebFits_iff]; exact ⟨hl, Nat.pos_of_neZero _⟩)
   have hns : ¬ off ≥ 2 ^ 63 := by omega
   unfold parseDIE seekCheck
-  simp only [hns, if_false, bind, Except.bind, hU.structs, the_uleb_eq, h0, if_true, pure, Except.pure, nullObs]
+  simp only [hns, if_false, bind, Except.bind, hU.structs.uleb, hU.structs.form, hU.structs.u32, the_uleb_eq, h0, if_true, pure, Except.pure, nullObs]
   congr 2
   omega
 
